@@ -35,3 +35,13 @@ func init() {
 		}
 	}
 }
+
+func init() {
+	debugHooks["rets-vrfr"] = func(c *Ctx) {
+		fn := c.Func(fnVRFR)
+		for _, ret := range eng.Returns(fn) {
+			ev := eng.RetErr(ret)
+			fmt.Printf("block %d ret err=%v (%T) class=%v sentinels=%v\n", ret.Block().Index, ev, ev, eng.ClassifyErr(ev, ret.Block()), eng.Sentinels(ev))
+		}
+	}
+}
